@@ -53,11 +53,10 @@ def _mc(ctx):
     # MaxEvents = 0: no bound on the history length -- the state space of each
     # focus is finite, so these runs cover histories of every length.
     if ctx.quick:
-        plan = [('vip', dict(owners=3, hosts=2), True), ('vip', dict(owners=3, hosts=6), False),
+        plan = [('vip', dict(owners=3, hosts=2), True), ('vip', dict(owners=2, hosts=6), False),
                 ('rule', dict(owners=3, rules=2), True), ('spec', dict(owners=3, specs=3), True),
                 ('svc', dict(owners=3, hosts=2), True),
-                ('gcrule', dict(owners=3, rules=2), True), ('gcvip', dict(owners=3, hosts=2), True),
-                ('gcspec', dict(owners=3, specs=2), True)]
+                ('gcrule', dict(owners=3, rules=2), True)]   # the stepped pass is one operator for all three
     else:
         plan = [('vip', dict(owners=3, hosts=2), True), ('vip', dict(owners=4, hosts=6), False),
                 ('rule', dict(owners=4, rules=3), True), ('spec', dict(owners=4, specs=4), True),
@@ -203,7 +202,9 @@ def selftest(ctx):
     import copy
     h = [('OwnerAppears', ['o1']), ('OwnerAppears', ['o2']), ('VipAlloc', ['o1']), ('VipAlloc', ['o2']),
          ('VipFree', ['o2', '192.168.0.1']), ('OwnerDisappears', ['o2']), ('VipGC', []),
-         ('RuleCreate', ['o1', 'r1']), ('RuleCreate', ['o2', 'r1'])]
+         ('RuleCreate', ['o1', 'r1']), ('RuleCreate', ['o2', 'r1']),
+         # lines 10..14: GcBegin, GcRun, OwnerAppears(o3), RuleCreate(o3,r2), GcEnd
+         ('GcPass', ['rules'], {'1': [['OwnerAppears', ['o3']], ['RuleCreate', ['o3', 'r2']]]})]
     jtmp, old = _tmp_env()
     try:
         good = od.replay(h)
@@ -228,7 +229,11 @@ def selftest(ctx):
         def c_rule(line):       # o2's create of o1's rule "succeeded"
             line['res'] = 'ok'
             line['post']['rules'] = [['r1', 'o2']]
-        cases = [('foreign-free', 5, c_free, 'C14.ownerOnly'), ('repoint', 4, c_repoint, 'C14.oneOwner'),
+        def c_gc_race(line):    # the pass took the rule of the owner that appeared meanwhile
+            line['post']['rules'] = [p for p in line['post']['rules'] if p[1] != 'o3']
+        assert good[14]['ev'] == 'GcEnd', [x['ev'] for x in good]
+        cases = [('gc-takes-newcomer', 14, c_gc_race, 'C14.gcExact'),
+                 ('foreign-free', 5, c_free, 'C14.ownerOnly'), ('repoint', 4, c_repoint, 'C14.oneOwner'),
                  ('outside', 4, c_cidr, 'C14.inCidr'), ('gc-keeps-orphan', 7, c_gc_keep, 'C14.gcExact'),
                  ('gc-takes-live', 7, c_gc_all, 'C14.gcExact'), ('rule-overwrite', 9, c_rule, 'C14.oneOwner')]
         traces = [dict(tid='good', lines=good)]
